@@ -35,6 +35,37 @@ const SIG_F10: &str = "remove_entry of a tx that has both pooled ancestors and p
 const SIG_F9: &str = "add_entry evicts a cell-ref parent whose descendant is another parent of the new tx (panic: inconsistent pool)";
 const UNKNOWN_ID: u64 = 999_999;
 static LAST_PANIC: std::sync::Mutex<String> = std::sync::Mutex::new(String::new());
+/// the operation being applied (start time, case so far) and the findings of the sequence so far: a pool
+/// operation that does not return is reported by the watchdog with the sequence that led to it
+static WATCH: std::sync::Mutex<Option<(std::time::Instant, Value)>> = std::sync::Mutex::new(None);
+static WATCH_FINDINGS: std::sync::Mutex<Vec<String>> = std::sync::Mutex::new(Vec::new());
+const OP_TIME_LIMIT_SECS: u64 = 60;
+
+fn start_watchdog(out: std::path::PathBuf, seed: u64, replaying: bool) {
+    std::thread::spawn(move || loop {
+        std::thread::sleep(std::time::Duration::from_secs(2));
+        let stuck = { let w = WATCH.lock().unwrap(); w.as_ref().and_then(|(t, c)| if t.elapsed().as_secs() > OP_TIME_LIMIT_SECS { Some(c.clone()) } else { None }) };
+        if let Some(case) = stuck {
+            let before = WATCH_FINDINGS.lock().unwrap().clone();
+            if replaying {
+                println!("PROPERTY VIOLATED: the last operation did not return within {} s (endless loop inside the pool); clauses false before it: {:?}", OP_TIME_LIMIT_SECS, before);
+                std::process::exit(1);
+            }
+            let summary = json!({
+                "property": PROP, "seed": seed, "evaluations": 1, "distinct_nontrivial": 1,
+                "rule": "watchdog: a pool operation did not return",
+                "distribution": {}, "samples": [],
+                "impl_violations": [{
+                    "what": format!("the last operation of this sequence did not return within {} s (endless loop inside the pool){}", OP_TIME_LIMIT_SECS,
+                                    if before.is_empty() { String::new() } else { format!("; invariant clauses already false before it: {}", before.join(" | ")) }),
+                    "detail": {"case": case}}],
+            });
+            let _ = fs::write(out.join("summary.json"), serde_json::to_string_pretty(&summary).unwrap());
+            println!("hx-pool: watchdog — an operation did not return within {} s", OP_TIME_LIMIT_SECS);
+            std::process::exit(0);
+        }
+    });
+}
 /// entries with a timestamp below this are expired by `remove_expired`
 const OLD_TS_LIMIT: u64 = 1_000_000;
 
@@ -766,6 +797,7 @@ impl<'a> Run<'a> {
                 && !f.ids.is_empty()
                 && f.ids.iter().all(|i| self.taint.contains(i));
             let known10 = f.clause == "I4" && !f.ids.is_empty() && f.ids.iter().all(|i| self.taint10.contains(i));
+            if !known && !known10 { let mut w = WATCH_FINDINGS.lock().unwrap(); if w.len() < 6 { w.push(format!("[{}] {}", f.clause, f.what)); } }
             self.findings.push((self.steps.len(), f, if known { Some(SIG_F3) } else if known10 { Some(SIG_F10) } else { None }));
         }
         self.steps.push(Step { cop, result, state: Some(c) });
@@ -1114,9 +1146,12 @@ fn replay(env: &Env, path: &str) -> ! {
     let cfg = cfg_from_json(&case["config"]);
     let ops: Vec<Op> = case["ops"].as_array().unwrap().iter().map(op_from_json).collect();
     let mut run = new_run(env, &u, &cfg);
-    for op in &ops {
+    start_watchdog(std::path::PathBuf::from("."), 0, true);
+    for (i, op) in ops.iter().enumerate() {
+        *WATCH.lock().unwrap() = Some((std::time::Instant::now(), json!({"op_index": i})));
         run.apply(op);
     }
+    *WATCH.lock().unwrap() = None;
     println!("replayed {} ops ({} primitive steps)", ops.len(), run.steps.len());
     if let Some(Some(c)) = run.steps.last().map(|s| s.state.clone()) {
         println!("final state: {}", canon_json(&c));
@@ -1150,6 +1185,7 @@ fn main() {
             let _ = fs::remove_file(e.path());
         }
     }
+    start_watchdog(out.clone(), seed, false);
     let mut rng = Rng::new(seed);
     let mut stats: BTreeMap<String, u64> = BTreeMap::new();
     let mut viol: Vec<Value> = Vec::new();
@@ -1209,9 +1245,12 @@ fn main() {
                 Op::Detach(_) => "op_detached_proposal",
             };
             *stats.entry(tag.into()).or_default() += 1;
+            ops.push(op.clone());
+            *WATCH.lock().unwrap() = Some((std::time::Instant::now(), case_json(&u, &cfg, &ops)));
             run.apply(&op);
-            ops.push(op);
         }
+        *WATCH.lock().unwrap() = None;
+        WATCH_FINDINGS.lock().unwrap().clear();
         evaluations += 1;
         steps_total += run.steps.len() as u64;
         if run.steps.iter().filter(|s| matches!(s.cop, Cop::Add(..)) && s.result == vec![0]).count() >= 3 {
